@@ -50,13 +50,44 @@ func tokenWant(c *h.Ctx, ttype uint16, nonce, challenge, keyID, auth []byte) []b
 	return c.Model("token_bytes", u16b(ttype), nonce, challenge, keyID, auth)[0]
 }
 
+// boundaryScalars: canonical encodings of scalars at the edges of the range (1, 2, order-1, order-2, the largest power
+// of two below the order and its neighbours): all are valid non-zero blinds.
+func boundaryScalars(g group.Group, order *big.Int, littleEndian bool) [][]byte {
+	size := int(g.Params().ScalarLength)
+	top := new(big.Int).Lsh(big.NewInt(1), uint(order.BitLen()-1))
+	vals := []*big.Int{big.NewInt(1), big.NewInt(2), new(big.Int).Sub(order, big.NewInt(1)), new(big.Int).Sub(order, big.NewInt(2)),
+		top, new(big.Int).Add(top, big.NewInt(3)), new(big.Int).Sub(top, big.NewInt(1)), new(big.Int).Lsh(big.NewInt(1), 128)}
+	var out [][]byte
+	for _, v := range vals {
+		if v.Sign() <= 0 || v.Cmp(order) >= 0 {
+			continue
+		}
+		b := make([]byte, size)
+		v.FillBytes(b)
+		if littleEndian {
+			for i, j := 0, len(b)-1; i < j; i, j = i+1, j-1 {
+				b[i], b[j] = b[j], b[i]
+			}
+		}
+		out = append(out, b)
+	}
+	return out
+}
+
+var orderP384, _ = new(big.Int).SetString("39402006196394479212279040100143613805079739270465446667946905279627659399113263569398956308152294913554433653942643", 10)
+var orderRistretto, _ = new(big.Int).SetString("7237005577332262213973186563042994240857116359379907606001950938285454250989", 10)
+
 func c11Type1(c *h.Ctx, n int) {
-	for i := 0; i < n; i++ {
+	bnd := boundaryScalars(group.P384, orderP384, false)
+	for i := 0; i < n+len(bnd); i++ {
 		sk, _ := oprf.DeriveKey(oprf.SuiteP384, oprf.VerifiableMode, rnd(c, 32), nil)
 		iss := type1.NewBasicPrivateIssuer(sk)
 		chal, nonce := rnd(c, c.Rng.Intn(80)), rnd(c, 32)
 		kid := iss.TokenKeyID()
 		b1, b2 := scalarBytes(c, group.P384), scalarBytes(c, group.P384)
+		if i >= n {
+			b2 = bnd[i-n] // a blind at the edge of the scalar range
+		}
 		client := type1.NewBasicPrivateClient()
 		det := map[string]any{"type": 1, "challenge": h.Hex(chal), "nonce": h.Hex(nonce), "blind1": h.Hex(b1), "blind2": h.Hex(b2)}
 		sA, errA := client.CreateTokenRequestWithBlind(chal, nonce, kid, iss.TokenKey(), b1)
@@ -99,7 +130,8 @@ func c11Type1(c *h.Ctx, n int) {
 func sha256sum(b []byte) []byte { return sha256Bytes(b) }
 
 func c11Type5(c *h.Ctx, n int) {
-	for i := 0; i < n; i++ {
+	bnd := boundaryScalars(group.Ristretto255, orderRistretto, true)
+	for i := 0; i < n+len(bnd); i++ {
 		sk, _ := oprf.DeriveKey(oprf.SuiteRistretto255, oprf.VerifiableMode, rnd(c, 32), nil)
 		iss := type5.NewBatchedPrivateIssuer(sk)
 		chal := rnd(c, c.Rng.Intn(80))
@@ -109,6 +141,12 @@ func c11Type5(c *h.Ctx, n int) {
 			nonces = append(nonces, rnd(c, 32))
 			bl1 = append(bl1, scalarBytes(c, group.Ristretto255))
 			bl2 = append(bl2, scalarBytes(c, group.Ristretto255))
+		}
+		if i >= n {
+			bl2[0] = bnd[i-n] // a blind at the edge of the scalar range
+			if len(bl2) > 1 {
+				bl2[len(bl2)-1] = bnd[(i-n+1)%len(bnd)]
+			}
 		}
 		kid := iss.TokenKeyID()
 		client := type5.NewBatchedPrivateClient()
@@ -156,6 +194,14 @@ func c11Type2(c *h.Ctx, n int) {
 		chal, nonce, salt := rnd(c, c.Rng.Intn(80)), rnd(c, 32), rnd(c, 48)
 		kid := iss.TokenKeyID()
 		b1, b2 := rsaBlind(c, key.N), rsaBlind(c, key.N)
+		switch i % 3 { // blinds at the edges of the range of units: 1, n - 1
+		case 1:
+			b2 = make([]byte, 256)
+			b2[255] = 1
+		case 2:
+			b2 = make([]byte, 256)
+			new(big.Int).Sub(key.N, big.NewInt(1)).FillBytes(b2)
+		}
 		client := type2.NewBasicPublicClient()
 		det := map[string]any{"type": 2, "challenge": h.Hex(chal), "nonce": h.Hex(nonce), "salt": h.Hex(salt)}
 		mk := func(b []byte) (type2.BasicPublicTokenRequestState, error) {
